@@ -36,8 +36,10 @@ func (m e2eMsg) body() []byte     { return m.item().ToBytes() }
 type e2eScenario struct {
 	limitE, limitH int
 	msgsE, msgsH   []e2eMsg
-	faults         string // one letter per attempt of the line holder: n f t k q o a
+	faults         string // one letter per attempt of the line holder: n f t k q o a l
 	tag            string
+	slowENQ        time.Duration // slow line: the ENQ of every block after the first is held back this long
+	t2, t4         time.Duration // overrides (0 = the tier's T2 / 30 s)
 }
 
 type e2eSide struct {
@@ -71,6 +73,7 @@ type e2eBox struct {
 	hold       bool // contention barrier: hold the first ENQ of each side until both have arrived
 	mu         sync.Mutex
 	attempts   int
+	slowENQ    time.Duration
 }
 
 type e2eByte struct {
@@ -211,6 +214,9 @@ func (x *e2eBox) run(done chan struct{}) {
 			// an ENQ of the line holder opens a new attempt (also after its T2 expired in waitEOT / waitAck)
 			f = x.fault()
 			senderE = ev.fromE
+			if x.slowENQ > 0 && x.attempts > 1 {
+				time.Sleep(x.slowENQ) // the line is quiet meanwhile: the sender waits for EOT under T2
+			}
 			if f == 'q' {
 				state = idle
 				continue
@@ -252,7 +258,14 @@ func runE2E(sc e2eScenario, tm c18Timers) e2eObs {
 	var obs e2eObs
 	eA, eB := net.Pipe() // equipment <-> box
 	hA, hB := net.Pipe() // host <-> box
-	box := &e2eBox{toE: eB, toH: hB, in: make(chan e2eByte, 1<<14), faults: sc.faults, hold: len(sc.msgsE) > 0 && len(sc.msgsH) > 0}
+	box := &e2eBox{toE: eB, toH: hB, in: make(chan e2eByte, 1<<14), faults: sc.faults, hold: len(sc.msgsE) > 0 && len(sc.msgsH) > 0, slowENQ: sc.slowENQ}
+	if sc.t2 > 0 {
+		tm.t2 = sc.t2
+	}
+	t4 := 30 * time.Second
+	if sc.t4 > 0 {
+		t4 = sc.t4
+	}
 	for _, m := range sc.msgsE {
 		box.pendingE += e2eBlocks(m)
 	}
@@ -267,7 +280,7 @@ func runE2E(sc e2eScenario, tm c18Timers) e2eObs {
 
 	const dev = 0x0123
 	mk := func(isEquip bool, limit int, c net.Conn) (*e2eSide, error) {
-		opts := []secs1.Option{secs1.WithDeviceID(dev), secs1.WithT1(tm.t1), secs1.WithT2(tm.t2), secs1.WithT4(30 * time.Second), secs1.WithRetryLimit(limit),
+		opts := []secs1.Option{secs1.WithDeviceID(dev), secs1.WithT1(tm.t1), secs1.WithT2(tm.t2), secs1.WithT4(t4), secs1.WithRetryLimit(limit),
 			secs1.WithConnectionOption(hsms.WithT3(20 * time.Second))}
 		used := false
 		if isEquip {
@@ -536,6 +549,19 @@ func e2eScenarios(c *Ctx) []e2eScenario {
 			}
 			out = append(out, sc)
 		}
+	}
+	// (1c) slow line: a five-block message whose blocks arrive 0.5 s apart with T4 = 1.5 s: every inter-block gap is
+	//      within T4 although the last block arrives 2 s after the first (T4 is an INTER-block timer; after seeded
+	//      changes C17b-1 / C18b-2). The send succeeds, so the message must be delivered exactly once.
+	for _, fromE := range []bool{true, false} {
+		sc := e2eScenario{limitE: 3, limitH: 3, tag: "slow-line-within-T4", slowENQ: 500 * time.Millisecond, t2: 3 * time.Second, t4: 1500 * time.Millisecond}
+		m := e2eMsg{stream: 6, fn: 11, payload: bytes.Repeat([]byte{0x33}, 244*4+100)}
+		if fromE {
+			sc.msgsE = []e2eMsg{m}
+		} else {
+			sc.msgsH = []e2eMsg{m}
+		}
+		out = append(out, sc)
 	}
 	// (2) contention: both ends send at once; at most two faults, none of them a lost handshake character, slave limit 3
 	ck := "ftka"
